@@ -399,6 +399,15 @@ class Fn:
         tup = ", ".join(lean_name(v) for v in vs)
         tup = "(%s)" % tup if len(vs) != 1 else tup
         fin = lambda i: ["  " * i + "pure %s" % (tup if vs else "()")]           # noqa: E731
+        if self.cfg.get("opt_case"):
+            # the same through the combinator `Py.optCase` (a `match` with a name, so that lemmas about optional stages apply)
+            ls = [pad + "let %s ← Py.optCase %s (fun %s => do" % (tup if vs else "_", self.atom(scrut), x)]
+            ls += self.S(some_body, ind + 2, fin, set(vs))
+            ls[-1] += ")"
+            ls += [pad + "  (do"] + self.S(none_body, ind + 2, fin, set(vs))
+            ls[-1] += ")"
+            self.defd |= set(vs)
+            return ls + self.S_(rest, ind, end, live_after)
         ls = [pad + "let %s ← (match %s with" % (tup if vs else "_", scrut), pad + "  | some %s => do" % x]
         ls += self.S(some_body, ind + 2, fin, set(vs))
         ls += [pad + "  | none => do"] + self.S(none_body, ind + 2, fin, set(vs))
@@ -714,9 +723,24 @@ FUNCS.append(
                      ("A.anonymize(B)", "(← Lines.liftRes (Words.anonymize p.wenv {A} {B}))"),
                      ("anonymize_as_numbers(A, B)", "(← Lines.liftRes (AsNum.anonymize {A} {B}))")]))
 
+FUNCS.append(
+    dict(module="netconan/anonymize_files.py", qual="FileAnonymizer.anonymize_io", name="line_step_full", select="for_body", opt_case=True,
+         sig="(p : Lines.Pipeline) (line : List Char) : Py.S (List Char × List Secrets.LogRec)",
+         attr_map={"self.anonymizer6": "p.ip6", "self.anonymizer4": "p.ip4", "self.anonymizer_sensitive_word": "p.words",
+                   "self.anonymizer_as_num": "p.asn"},
+         skip_stmts=["logging.debug(A, B)"],
+         stmt_rules=[("if self.compiled_regexes is not None and self.pwd_lookup is not None:\n"
+                      "    output_line = replace_matching_item(self.compiled_regexes, output_line, self.pwd_lookup, self.salt, self.reserved_words)",
+                      "let (output_line, logs) ← Py.secretStageS p output_line"),
+                     ("out_io.write(output_line)", "!pure (output_line, logs)")],
+         expr_rules=[("anonymize_ip_addr(self_anonymizer6, A, self.undo_ip_anon)", "(← Py.ipStage6S self_anonymizer6 p.undo {A})"),
+                     ("anonymize_ip_addr(self_anonymizer4, A, self.undo_ip_anon)", "(← Py.ipStage4S self_anonymizer4 p.undo {A})"),
+                     ("A.anonymize(B)", "(← Py.resS (Words.anonymize p.wenv {A} {B}))"),
+                     ("anonymize_as_numbers(A, B)", "(← Py.resS (AsNum.anonymize {A} {B}))")]))
+
 GROUPS = {
     "SrcIp": dict(imports=["Netconan.Model.Py", "Netconan.Model.Mask", "Netconan.Model.IpText", "Netconan.Model.PyRegex"],
-                  serves=["C01", "C02", "C03", "C04", "C05", "C06", "C17"],
+                  serves=["C01", "C02", "C03", "C04", "C05", "C06", "C17", "C12", "C13", "C14", "C15"],
                   funcs=["is_mask", "anonymize_bits", "deanonymize_bits", "anonymize", "deanonymize", "seed_loop", "should_anonymize", "should_anonymize6", "anonymize_match", "anonymize_ip_addr"]),
     "SrcSecrets": dict(imports=["Netconan.Model.PySecrets"], serves=["C07", "C08", "C09", "C12", "C13", "C14", "C15"],
                        funcs=["check_sensitive_item_format", "extract_enclosing_text", "anonymize_value", "replace_matching_item"]),
@@ -724,6 +748,7 @@ GROUPS = {
                   funcs=["generate_as_number_replacement"]),
     "SrcLines": dict(imports=["Netconan.Model.Py", "Netconan.Model.Lines"], serves=["C12", "C13", "C14", "C15"], funcs=["line_step"]),
     "SrcJun": dict(imports=["Netconan.Model.Py", "Netconan.Model.Juniper"], serves=["C18"], funcs=["gap_encode", "gap", "fixedc"]),
+    "SrcFull": dict(imports=["Netconan.Model.PyFull"], serves=["C12", "C13", "C14", "C15"], funcs=["line_step_full"]),
     "SrcCli": dict(imports=["Netconan.Model.Py", "Netconan.Model.Cli"], serves=["C19"], funcs=["main"]),
 }
 
